@@ -25,7 +25,7 @@ type HTTPObs struct {
 	Resp     []byte
 	Err      string
 	Panic    string
-	Executed bool // handler ran to completion
+	Executed bool   // handler ran to completion
 	Handler  string // task that executed the handler
 }
 
